@@ -344,7 +344,11 @@ def r_unit_elimination(prog: Program, col: Collector, refs: Refs, cat: Catalogue
                 g = comp.generators[0]
                 if not (isinstance(comp.elt, ast.Name) and isinstance(g.target, ast.Name) and comp.elt.id == g.target.id):
                     continue
-                tests_unit = any(any(s_ in list(ast.walk(c)) for s_ in subs) for c in g.ifs)
+                # a local bound once to UNITS[key] stands for the unit
+                aliases = {a.targets[0].id for a in walk_no_nested(f.node) if isinstance(a, ast.Assign) and len(a.targets) == 1
+                           and isinstance(a.targets[0], ast.Name) and a.value in subs}
+                aliases = {a for a in aliases if sum(1 for n in walk_no_nested(f.node) if isinstance(n, ast.Name) and n.id == a and isinstance(n.ctx, ast.Store)) == 1}
+                tests_unit = any(any(s_ in list(ast.walk(c)) for s_ in subs) or any(isinstance(n, ast.Name) and n.id in aliases for n in ast.walk(c)) for c in g.ifs)
                 col.check(tests_unit, construct + "::removed terms are units", "a term is dropped only if it equals the unit",
                           f"the filter `{' and '.join(norm(c) for c in g.ifs)[:80]}` that drops terms does not compare them with UNITS[{key}]: once some unit is present, "
                           "terms that are not the unit (any constant) are dropped from the product as well", f.loc(comp))
@@ -1903,6 +1907,19 @@ def r_contraction_result_reduces(prog: Program, col: Collector, refs: Refs, cat:
                 continue
             guard_nodes = [a for a in f.module.ancestors(ret) if isinstance(a, ast.If) and f.module.enclosing_function(a) is f.node]
             guard_nodes += [a for a in walk_no_nested(f.node) if isinstance(a, ast.Assert) and a.lineno < ret.lineno]
+            # an `if` one of whose branches always leaves guards the statements that follow it in its block (early-exit spelling)
+            for a in walk_no_nested(f.node):
+                if not isinstance(a, ast.If) or a in guard_nodes:
+                    continue
+                if not any(b and isinstance(b[-1], (ast.Return, ast.Raise, ast.Continue, ast.Break)) for b in (a.body, a.orelse)):
+                    continue
+                par = f.module.parent.get(a)
+                for fld in ("body", "orelse", "finalbody"):
+                    blk = getattr(par, fld, None)
+                    if isinstance(blk, list) and any(x is a for x in blk):
+                        k = [j for j, x in enumerate(blk) if x is a][0]
+                        if any(ret is y for st in blk[k + 1:] for y in ast.walk(st)):
+                            guard_nodes.append(a)
             established = any({R, V} & param_deps(f, g.test, g, cfg=cfg) for g in guard_nodes)
             col.check(established, construct, f"returned under a test on `{R}` / `{V}` (nothing is reduced there)",
                       f"`{norm(ret.value)[:60]}` does not depend on `{V}` and is not guarded by any test on `{R}` or `{V}`: the reduction over `{V}` is dropped, so the reduced "
